@@ -296,6 +296,7 @@ def do_check(a, prop, mod, work, base, t0):
         "excluded_by_finding": excluded,
         "open_findings": [e["id"] for e in opens],
         "inconclusive": inconclusive,
+        "shards_stopped_after_inconclusive": sum(1 for r in reports if r.get("aborted_after_inconclusive")),
         "inconclusive_samples": inc_samples[:2],
         "budget_examples_per_shard": a.examples if a.examples is not None else mod.BUDGET[tier],
     }
@@ -321,6 +322,9 @@ def do_check(a, prop, mod, work, base, t0):
         print(line)
     print("%s tier=%s seed=%s shards=%d evaluations=%d distinct_nontrivial=%d inconclusive=%d wall=%.1fs"
           % (prop, tier, ev["seed"], nshards, evaluations, distinct, inconclusive, wall))
+    if inconclusive:
+        print("INCONCLUSIVE cases=%d (no answer within the watchdog; not counted as violations; see evidence)"
+              % inconclusive)
     if violations:
         for path, what in violations:
             print("violation detail: %s" % what)
